@@ -52,6 +52,23 @@ func main() {
 		}
 		os.Stdout.Write(b)
 		fmt.Println()
+	case "dump":
+		// debugging aid: print the SSA of a function
+		prog, err := LoadProgram("linux", "amd64", false)
+		if err != nil {
+			fmt.Fprintln(os.Stderr, err)
+			os.Exit(2)
+		}
+		for _, name := range os.Args[3:] {
+			f := prog.Func(os.Args[2], name)
+			if f == nil {
+				fmt.Println("not found:", name)
+				continue
+			}
+			for _, g := range withClosures(f) {
+				g.WriteTo(os.Stdout)
+			}
+		}
 	case "check":
 		if len(os.Args) < 3 {
 			usage()
